@@ -34,13 +34,15 @@ Init ==
 MutantsOf(m) == IF fmt = "json" THEN JRootMutants(m, doc, m.root)
                 ELSE IF NamesConcrete(m, doc.tag, m.root) THEN XRootMutants(m, doc, ConcreteNamed(m, doc.tag, m.root)) ELSE <<>>
 
+MutateWith(m, ms) ==
+    \E k \in 1..Len(ms) :
+        /\ doc' = ms[k].doc
+        /\ hist' = Append(hist, [kind |-> ms[k].kind, at |-> ms[k].at])
+        /\ strict' = RefOf(m, fmt, ms[k].doc, FALSE)
+        /\ lenient' = RefOf(m, fmt, ms[k].doc, TRUE)
 Mutate ==
     /\ Len(hist) < MaxMut
-    /\ \E mu \in RangeOf(MutantsOf(Models[mi])) :
-        /\ doc' = mu.doc
-        /\ hist' = Append(hist, [kind |-> mu.kind, at |-> mu.at])
-        /\ strict' = RefOf(Models[mi], fmt, mu.doc, FALSE)
-        /\ lenient' = RefOf(Models[mi], fmt, mu.doc, TRUE)
+    /\ MutateWith(Models[mi], MutantsOf(Models[mi]))
     /\ UNCHANGED <<mi, x, fmt>>
 
 Next == Mutate
